@@ -438,7 +438,7 @@ func createTaskWithDir(dir string, opts GlobalOptions, lockPath, eventsPath, epi
 				return err
 			}
 		}
-		id, err := newShortID(graph.Tasks)
+		id, err := newShortID(takenIDs(graph))
 		if err != nil {
 			return err
 		}
